@@ -121,7 +121,9 @@ func (c *Config) Proxy(closing chan bool, cc io.ReadWriter, url *url.URL) error 
 // forwardPreface forwards the connection preface from the client to the server.
 func forwardPreface(server io.Writer, client io.Reader) error {
 	preface := make([]byte, len(connectionPreface))
-	if _, err := client.Read(preface); err != nil {
+	// A single Read may return only part of the preface when the transport delivers it in
+	// several segments.
+	if _, err := io.ReadFull(client, preface); err != nil {
 		return fmt.Errorf("reading preface: %w", err)
 	}
 	if !bytes.Equal(preface, connectionPreface) {
